@@ -563,10 +563,16 @@ class Study:
         trial_id = self._pop_waiting_trial_id()
         if trial_id is None:
             trial_id = self._storage.create_new_trial(self._study_id)
-        trial = optuna.Trial(self, trial_id)
+        try:
+            trial = optuna.Trial(self, trial_id)
 
-        for name, param in fixed_distributions.items():
-            trial._suggest(name, param)
+            for name, param in fixed_distributions.items():
+                trial._suggest(name, param)
+        except (Exception, KeyboardInterrupt):
+            # The trial already exists in the storage: do not leave it RUNNING for ever when the
+            # sampler (or a fixed distribution) raises before the trial is handed to the caller.
+            self._storage.set_trial_state_values(trial_id, state=TrialState.FAIL)
+            raise
 
         return trial
 
